@@ -18,9 +18,14 @@ func genTPlan(rt *rapid.T, pairs [][2]int, maxBatches int, withFailing bool) tPl
 	nt := rapid.SampledFrom(pairs).Draw(rt, "nt")
 	p := tPlan{N: nt[0], T: nt[1]}
 	nb := rapid.IntRange(1, maxBatches).Draw(rt, "batches")
+	sameRange := rapid.IntRange(0, 2).Draw(rt, "samerange") == 0 // every batch proposes the same baked range: equal message ids in all batches
 	for b := 0; b < nb; b++ {
 		tb := tBatch{Proposer: rapid.IntRange(0, p.N-1).Draw(rt, "proposer")}
 		k := rapid.IntRange(1, 2).Draw(rt, "ntasks")
+		if sameRange {
+			tb.Tasks = []sTask{{ID: fmt.Sprintf("range-b%d", b), Start: 7, End: 9}}
+			k = 0
+		}
 		for i := 0; i < k; i++ {
 			tb.Tasks = append(tb.Tasks, sTask{ID: fmt.Sprintf("b%d-m%d", b, i), File: fmt.Sprintf("f%d", i), Payload: []byte(fmt.Sprintf("payload %d of batch %d", i, b))})
 		}
